@@ -186,6 +186,20 @@ def do_element(ctx, sess, kind, seed, w):
         sess.builts[(seed, None)] = res.live
         sess.kept_context = getattr(res.live, 'kept_context', None) or getattr(sess, 'kept_context', None)
         return
+    if kind in ('discarded_by_a_helper_thread', 'discarded_by_a_helper_thread_then_interrupted'):
+        # the recording of an operation in flight is discarded from ANOTHER thread (a watchdog, a helper thread of the operation on which
+        # a capture fails) - discard_recording is documented to be callable from interceptions that run on other threads
+        import threading
+
+        def from_helper(built):
+            t = threading.Thread(target=rec.discard_recording)
+            t.start()
+            t.join()
+        p2 = clone(prog)
+        p2['body'] = p2['body'][:2] + [{'op': 'py', 'fn': from_helper}] + p2['body'][2:]
+        faults = {('main', 4): 'raise_interrupt'} if kind.endswith('interrupted') else {}
+        fr.execute(p2, faults, recorder=rec, spy=sess.spy, box=sess.box, with_twin=False)
+        return
     if kind == 'forced_discarded':
         # sampling is enforced and the recording is discarded afterwards in the same operation
         res = fr.execute(prog, {('main', 1): 'force', ('main', 3): 'discard'}, recorder=rec, spy=sess.spy, box=sess.box, with_twin=False,
@@ -465,6 +479,15 @@ def run(ctx):
         idx += 1
         if ctx.mine(idx):
             run_history(ctx, hist, 'explicit_scope', ('memory', 'file', 's3')[idx % 3], 5000 + hi)
+    # a recording discarded from another thread than the one that runs the operation; the next request is served by the SAME thread
+    # (even seeds) and by another one (odd seeds)
+    for hi, hist in enumerate([['discarded_by_a_helper_thread'], ['discarded_by_a_helper_thread_then_interrupted'], ['success', 'discarded_by_a_helper_thread'],
+                               ['discarded_by_a_helper_thread', 'replay_ok'], ['discarded_by_a_helper_thread', 'discarded_by_a_helper_thread']]):
+        for which in ('record', 'replay', 'record_rate0', 'explicit_scope'):
+            for par in (0, 1):
+                idx += 1
+                if ctx.mine(idx):
+                    run_history(ctx, hist, which, ('memory', 'file', 's3')[idx % 3], 6000 + 10 * hi + par)
     n = ctx.budget(300, 20000)
     rng = ctx.rng
     for i in range(n):
